@@ -4,6 +4,7 @@ import (
 	"fmt"
 	"go/token"
 	"go/types"
+	"os"
 	"sort"
 	"strings"
 
@@ -105,6 +106,7 @@ type fiRun struct {
 	fail    string
 	budget  int
 	skipBlk map[*ssa.BasicBlock]bool
+	visited map[*ssa.BasicBlock]bool
 }
 
 type fiPre struct {
@@ -309,6 +311,9 @@ func (r *fiRun) site(ins ssa.Instruction, ok bool, why string) {
 	} else {
 		delete(r.proof.sites, ins)
 		r.proof.failed[ins] = why
+		if os.Getenv("FI_DEBUG") != "" {
+			fmt.Fprintf(os.Stderr, "FI_DEBUG site not proved: %s %s %T\n", r.fn.Name(), r.c.pos(ins.Pos()), ins)
+		}
 	}
 }
 
@@ -339,6 +344,9 @@ func (r *fiRun) step(b, prev *ssa.BasicBlock, st *fiState) {
 	}
 	if r.skipBlk[b] {
 		return
+	}
+	if r.visited != nil {
+		r.visited[b] = true
 	}
 	// phis first (values of the edge taken)
 	for _, ins := range b.Instrs {
@@ -815,6 +823,26 @@ func (c *Ctx) cursorProof() *cursorProof {
 				}
 			}
 		}
+		// a function with an explicit panic that reads the cursor (decode's pre-CRC check, wherever the
+		// stores it once sat next to have moved): its panic is decided by the walk
+		hasPanic, readsCursor := false, false
+		for _, b := range fn.Blocks {
+			for _, ins := range b.Instrs {
+				switch n := ins.(type) {
+				case *ssa.Panic:
+					hasPanic = true
+				case *ssa.UnOp:
+					if n.Op == token.MUL {
+						if p, ok := c.decoderPath(n.X); ok && tracked[p] {
+							readsCursor = true
+						}
+					}
+				}
+			}
+		}
+		if hasPanic && readsCursor {
+			need = true
+		}
 		if need {
 			storers = append(storers, fn)
 			have[fn] = true
@@ -830,12 +858,20 @@ func (c *Ctx) cursorProof() *cursorProof {
 			}
 		}
 	}
+	var deadPanics []*ssa.Panic
 	defer func() {
 		// a precondition panic is discharged when every walked caller proved the precondition
 		allOK := true
 		for _, fn := range storers {
 			if cp.preserves[fn] != "" {
 				allOK = false
+			}
+		}
+		if allOK {
+			for _, pn := range deadPanics {
+				if _, bad := cp.failed[pn]; !bad {
+					cp.sites[pn] = "unreachable: on every path towards this panic the tests of the path, the success postconditions of the calls before it and the cursor invariant are contradictory (the walk pruned every edge into it)"
+				}
 			}
 		}
 		for f, pr := range pre {
@@ -874,8 +910,42 @@ func (c *Ctx) cursorProof() *cursorProof {
 			// assume the precondition: evaluate the entry block's loads first, then add the facts
 			r.skipBlk[pr.panic.Block()] = true
 		}
+		r.visited = map[*ssa.BasicBlock]bool{}
 		r.step(fn.Blocks[0], nil, st)
 		cp.preserves[fn] = r.fail
+		if r.fail == "" {
+			// a panic the walk never reached: every edge towards it was pruned because the facts of
+			// the path (tests, callee postconditions, the invariant) are contradictory there
+			for _, b := range fn.Blocks {
+				if r.visited[b] || r.skipBlk[b] || len(b.Instrs) == 0 || b == fn.Recover {
+					continue
+				}
+				if pn, ok := b.Instrs[len(b.Instrs)-1].(*ssa.Panic); ok && reachableFromEntry(fn, b) {
+					deadPanics = append(deadPanics, pn)
+				}
+			}
+		}
 	}
 	return cp
+}
+
+func reachableFromEntry(fn *ssa.Function, b *ssa.BasicBlock) bool {
+	seen := map[*ssa.BasicBlock]bool{}
+	var dfs func(x *ssa.BasicBlock) bool
+	dfs = func(x *ssa.BasicBlock) bool {
+		if x == b {
+			return true
+		}
+		if seen[x] {
+			return false
+		}
+		seen[x] = true
+		for _, s := range x.Succs {
+			if dfs(s) {
+				return true
+			}
+		}
+		return false
+	}
+	return dfs(fn.Blocks[0])
 }
